@@ -29,6 +29,7 @@ ALPHABET = [
     ["timeout", 0],
     ["set_keys", 0],
     ["set_keys_bad", 0, "privlen"],
+    ["oversize", 0],
 ]
 
 WRAP_STARTS = {1: [0xFFFFFFFD, 0xFFFFFFFF, 0], 2: [0xFFFFFFFFFFFFFFFD, 0xFFFFFFFFFFFFFFFF, 0x00000000FFFFFFFE]}
@@ -44,7 +45,7 @@ def prefixes(depth):
                     ok = False
                     break
                 outstanding = False
-            elif a[0] not in ("set_keys", "set_keys_bad"):
+            elif a[0] not in ("set_keys", "set_keys_bad", "oversize"):
                 outstanding = True
         if ok:
             yield [list(a) for a in h]
@@ -73,7 +74,7 @@ def gen_cases(tier):
             starts = WRAP_STARTS[priv] if auth == 2 else WRAP_STARTS[priv][:1]
             for start in starts:
                 tail = [["get", 0, "sys"], ["refresh", 0], ["get_many", 0, "pair"], ["getbulk", 0, "sys", 2]]
-                for pre in prefixes(depth):
+                for pre in prefixes(depth if auth == 2 or thorough else depth - 1):
                     yield {"class": "prefix-interleavings", "cfgs": [cfg.describe()], "history": pre + tail, "force_salt": start}
         for start in WRAP_STARTS[priv] + [None]:
             for disc in (False, True):
@@ -112,11 +113,14 @@ def run(tier):
     mod, fast = drivers.subject()
     rec = common.Recorder(PROPERTY, tier, LEVEL, MODULE)
     rec.rule = (
-        "every interleaving of %d leading steps over {5 request types, reply with boots change, garbage, time-out, set_keys} followed by a fixed "
+        "every interleaving of %d leading steps over {5 request types, reply with boots change, garbage, time-out, set_keys, refused set_keys, refused over-sized request} followed by a fixed "
         "tail, per cipher and salt start (next to wrap-around via the RNG seam); long mixed runs; discovery+set_keys; two sessions. "
         "evaluations = datagrams whose msgPrivacyParameters/flags/clear text were examined." % (5 if tier == "thorough" else 4)
     )
-    rec.assume("salts are read from the wire; the RNG seam only chooses where the counter starts")
+    rec.assume(
+        "salts are read from the wire; the RNG seam only chooses where the counter starts",
+        "a request refused before anything is sent (over-sized) may use up one counter value: between two consecutive messages with r refusals in between the counter advances by 1..1+r; it never repeats",
+    )
     if not hasattr(fast, "_verif_rng_force"):
         rec.cap("RNG seam absent: wrap-around of the salt counter not forced")
     common.run_cases(rec, work, list(gen_cases(tier)), chunk=50)
